@@ -45,7 +45,8 @@ inductive Phase where | running | draining | stopped
 
 /-- What the environment can make a consumer's `shutdown()` do (the handlers in
     `shutdown_consumers` exist for both): raise synchronously, or return an already failed Deferred
-    (what the real `Consumer.shutdown` does when it is not running or is shutting down already). -/
+    (what the real `Consumer.shutdown` does when it is shutting down already; a consumer that is
+    not running any more is skipped by `shutdown_consumers` and is outside this model's alphabet). -/
 inductive Quirk where | none | shutdownRaises | shutdownFails
   deriving DecidableEq, Repr
 
@@ -231,6 +232,12 @@ def hbDelay (cfg : Cfg) (s : St) : Rat :=
   iv - (runningFor - iv * (((runningFor / iv).floor : Int) : Rat))
 
 def hbSchedule (cfg : Cfg) (s : St) : Out := addTimer s .hb (hbDelay cfg s)
+
+/-- `_join_group_success`: a heartbeat that is still unanswered was sent with the previous member id
+    and generation; it is cancelled and `_handle_heartbeat_failure` ignores the CancelledError of a
+    request it no longer waits for -/
+def abandonHb (s : St) : Out :=
+  if s.hbInFlight then ({ s with hbInFlight := false }, [.cancelReq .hbR]) else (s, [])
 
 /-- `_heartbeat_looper.stop()` : cancels the pending call -/
 def hbStop (s : St) : Out :=
@@ -474,7 +481,8 @@ def step (cfg : Cfg) (s : St) : Ev → Out
     | .err e =>
       andThen (rejoinAfterError cfg { s with jpc := .idle } e) fun s => ({ s with rejoinD := false }, [])
     | .ok m g leader n =>
-      let s := { s with member := m, gen := some g }
+      -- `_join_group_success`: adopt the ids; abandon a heartbeat sent with the previous ones
+      andThen (abandonHb { s with member := m, gen := some g }) fun s =>
       if s.stopping then ({ s with jpc := .idle, rejoinD := false }, [])
       else if leader then ({ s with jpc := .loadParts n }, [.loadParts])
       else ({ s with jpc := .sync }, [.sync s.gen s.member 0])
